@@ -31,6 +31,22 @@ def Dense.ofFn (rows cols : Nat) (fortran : Bool) (f : Nat → Nat → R) : Dens
   { rows := rows, cols := cols, fortran := fortran,
     data := fun p => if fortran then f (p % rows) (p / rows) else f (p / cols) (p % cols) }
 
+/-! ### `iadd_dense` -/
+section denseIadd
+variable {R : Type} [Add R] [Mul R]
+
+/-- `iadd_dense`: `left += scale · right` in place.  With equal memory orders one `zaxpy` over the whole buffer; otherwise
+`dim2` calls `zaxpy(dim1, scale, right.data + idx, dim2, left.data + idx·dim1, 1)` with `(dim1, dim2) = (rows, cols)` for a
+Fortran-ordered left operand and `(cols, rows)` for a C-ordered one -/
+def iaddDense (l r : Dense R) (s : R) : Dense R :=
+  if l.fortran == r.fortran then
+    { l with data := fun p => if p < l.rows * l.cols then l.data p + s * r.data p else l.data p }
+  else
+    let dim1 := if l.fortran then l.rows else l.cols
+    let dim2 := if l.fortran then l.cols else l.rows
+    { l with data := fun p => if p < dim2 * dim1 then l.data p + s * r.data (p / dim1 + (p % dim1) * dim2) else l.data p }
+end denseIadd
+
 /-! ### CSR: rows of (column, value) -/
 abbrev Row (R : Type) := List (Nat × R)
 
